@@ -522,7 +522,7 @@ static void sink (const struct yaep_verif_event *ev)
   else if (ev->kind == YAEP_VERIF_REC) n_recs++;
   else if (ev->kind == YAEP_VERIF_MP) { if (ev->a == 1) mp1++; else mp2++; }
   if (!sets_active) return;
-  snprintf (buf, sizeof buf, "%s{\"k\":%d,\"a\":%d,\"b\":%d,\"c\":%d,\"d\":%d,\"e\":%d,\"it\":[", trace_sets.n ? "," : "", ev->kind, ev->a, ev->b, ev->c, ev->d, ev->e);
+  snprintf (buf, sizeof buf, "%s{\"k\":%d,\"a\":%d,\"b\":%d,\"c\":%d,\"d\":%d,\"e\":%d,\"f\":%d,\"it\":[", trace_sets.n ? "," : "", ev->kind, ev->a, ev->b, ev->c, ev->d, ev->e, ev->f);
   sb_add (&trace_sets, buf);
   for (i = 0; i < ev->n; i++)
     {
